@@ -545,7 +545,16 @@ func (dc *ClientDnsConnection) SetEncodingUpstream() error {
 	e := enc.Base32Encoding
 	log.Debugf("No reply from server on codec switch. Falling back to upstream codec: %v", e)
 	dc.Serializer.Upstream.Encoder = e
-	return nil
+
+	// The server may have switched all the same (its answers may be what got lost): the fallback has to be
+	// agreed on as well, or the two ends decode each other's data with different codecs.
+	for i := 0; !dc.Closed() && i < 5; i++ {
+		if resp, err := dc.SendSetEncodingUpstream(secs(i + 1)); err == nil && resp.Err == nil {
+			log.Debugf("Upstream coded switched to %v", e)
+			return nil
+		}
+	}
+	return errors.Errorf("No reply from server on codec switch, upstream codec is not agreed on")
 }
 
 func (dc *ClientDnsConnection) TestDownstreamEncoder(trycodec enc.Encoder) error {
